@@ -44,9 +44,9 @@ class Formatter(FormatterInterface):
         if dtype == L.DataType.REAL:
             return f"np.{self.real_type}"
         if dtype == L.DataType.INT:
-            return f"np.{np.int32}"
+            return "np.int32"
         if dtype == L.DataType.BOOL:
-            return f"np.{np.bool}"
+            return "np.bool_"
         raise ValueError(f"Invalid dtype: {dtype}")
 
     @singledispatchmethod
